@@ -6,6 +6,8 @@ import "github.com/Trendyol/go-dcp/models"
 
 func init() {
 	vHarnesses["C05_seq"] = H_C05_seq
+	vHarnesses["C05_seq3"] = H_C05_seq3
+	vHarnesses["C05_seq5"] = H_C05_seq5
 }
 
 // H_C05_seq: K steps of deliveries, acknowledgements (now / late / repeated),
@@ -16,16 +18,20 @@ func init() {
 // tracked when the save began; a save with nothing advanced writes nothing.
 func H_C05_seq() {
 	vNVcur = 2
-	K := 4
-	if tierThorough() {
-		K = 5
-	}
-	vC05Seq(K)
+	vC05Seq(4) // thorough tier: every document and control event kind
+}
+
+// H_C05_seq5: five steps over two vBuckets, one kind per event class.
+func H_C05_seq5() {
+	vNVcur = 2
+	vFewKinds = true
+	vC05Seq(5)
 }
 
 // H_C05_seq3: the same histories over three vBuckets (K=4).
 func H_C05_seq3() {
 	vNVcur = 3
+	vFewKinds = true
 	vC05Seq(4)
 }
 
